@@ -1,6 +1,7 @@
 #include "theory.h"
 #include "sat_core.h"
 #include "clause.h"
+#include "verif.h"
 #include <algorithm>
 
 namespace smt
@@ -23,6 +24,10 @@ namespace smt
         while (sat->decision_level() > bt_level)
             sat->pop();
 
+#ifdef ORATIO_VERIF
+        if (sat->root_level())
+            VERIF_HOOK(theory_conflict(*this, cnfl));
+#endif
         if (sat->root_level())
             return sat->new_clause(cnfl) && sat->propagate();
 
@@ -33,6 +38,7 @@ namespace smt
 
     void theory::analyze_and_backjump() noexcept
     {
+        VERIF_HOOK(theory_conflict(*this, cnfl));
         // we create a conflict clause for the analysis..
         clause cnfl_cl(*sat, std::move(cnfl));
 
